@@ -454,6 +454,9 @@ func (p *Proof) ProvesStatement(sign int, factor uint, bound *big.Int) bool {
 		return false
 	}
 	if len(p.Cs) == 3 {
+		if factor > ^uint(0)/4 {
+			return false // factor*4 would wrap around and compare equal to an unrelated factor
+		}
 		factor *= 4
 		bound = threeSquaresBound(sign, bound)
 	}
